@@ -389,10 +389,12 @@ def partition(rows, cuts, tape: Tape, delimited: bool, metadata, log):
     return frames
 
 
-def naive_size(case_statements, phys, sizes, namespaces=()) -> int:
-    """Bytes of the naive encoding: one entry per use, explicit ids, no elision, one graph per quad."""
+def naive_size(case_statements, phys, sizes, namespaces=(), options=None) -> int:
+    """Bytes of the naive encoding: one entry per use, explicit ids, no elision, one graph per quad.
+
+    `options`: the options row actually written (so that the header, e.g. a long stream name, is the same on both sides)."""
     enc = RefEncoder(phys=phys, sizes=sizes, tape=[], version=2 if namespaces else 1)
-    total_rows = [("options", dict(enc.options))]
+    total_rows = [("options", dict(options) if options is not None else dict(enc.options))]
     counters = {"name": 0, "prefix": 0, "datatype": 0}
     size_of = {"name": sizes[0], "prefix": sizes[1], "datatype": sizes[2]}
 
